@@ -32,7 +32,7 @@ func replayMain(args []string) int {
 	fmt.Printf("replaying %s: harness %s in %s, expecting %s\n", rf.Property, rf.Harness, rf.Pkg, rf.Expect)
 	ok, observable, detail := nb.confirm(&rf, args[0])
 	if !observable {
-		fmt.Println("this violation is visible only in the executor's ownership model (recycled/caller-owned memory); replaying symbolically")
+		fmt.Println("a native run cannot show this violation (" + detail + "); replaying it in the executor with the recorded inputs")
 		return replaySymbolic(&rf)
 	}
 	fmt.Println(detail)
@@ -65,6 +65,6 @@ func replaySymbolic(rf *ReplayFile) int {
 			return 1
 		}
 	}
-	fmt.Printf("the recorded violation does not reproduce on the current tree (path ended: %s)\n", end)
+	fmt.Printf("the recorded violation does not reproduce on the current tree (the execution went past the recorded point without it; path ended: %s)\n", end)
 	return 0
 }
